@@ -220,6 +220,71 @@ theorem mergedExtract_disjoint_of_laminar (src : Str) (inputs : List (List ER)) 
       (fun a b ⟨l, hl1, ha⟩ ⟨l', hl2, hb⟩ => hl l hl1 a ha l' hl2 b hb) (fun a ⟨l, hl1, ha⟩ => hp l hl1 a ha)
       inputs [] (by simp) (fun l hl1 v hv => ⟨l, hl1, hv⟩) (by simp)) hx
 
+/-- the Boolean the driver prints for every recorded `extract` call IS the hypothesis `ExtClear` -/
+theorem extClearB_iff (src : Str) (ops : Nat → List ModOp) (l : List ER) :
+    extClearB src ops l = true ↔ ExtClear src ops l := by
+  unfold extClearB ExtClear
+  simp only [List.all_eq_true, Bool.or_eq_true, Bool.not_eq_eq_eq_not, Bool.not_true, decide_eq_false_iff_not,
+    decide_eq_true_eq]
+  constructor
+  · intro h a ha b hb hd
+    rcases h a ha b hb with h | h
+    · exact absurd hd h
+    · exact h
+  · intro h a ha b hb
+    by_cases hd : Disjoint a b
+    · exact Or.inr (h a ha b hb hd)
+    · exact Or.inl hd
+
+/-- `merge_all_tokens` of non-empty tokens yields non-empty results (the length is the surviving token's). -/
+theorem mergeAllTokens_len_pos (src : Str) (ts : List Tk) (hne : ∀ t ∈ ts, t.start < t.stop) :
+    ∀ e ∈ mergeAllTokens src ts, 0 < e.len := by
+  intro e he
+  unfold mergeAllTokens at he
+  simp only [List.mem_map] at he
+  obtain ⟨t, ht, rfl⟩ := he
+  have := hne t (mergeTokens_mem ts t ht)
+  simp only [Tk.length]
+  split <;> omega
+
+/-- `mergedExtract_disjoint_of_laminar` with its positivity hypothesis `hp` DISCHARGED for what the sub-extractors really
+hand over — `merge_all_tokens` of their tokens — from the non-emptiness of the tokens (`start < end`; monitored per
+recorded call as `mat.nonempty_tokens`; an empty token is possible in the code: `C01.mergeAllTokens_empty_token_witness`).
+The two remaining hypotheses are the ones the run evaluates on every recorded `extract` call: nested-or-apart candidates
+(`mext.laminar_inputs`) and `extClearB` (`mext.ExtClear`). -/
+theorem mergedExtract_disjoint_of_tokens (src : Str) (toks : List (List Tk)) (unspecific ambiguous : ER → Bool)
+    (ops : Nat → List ModOp) (calendar : ER → Bool)
+    (hne : ∀ ts ∈ toks, ∀ t ∈ ts, t.start < t.stop)
+    (hl : ∀ l ∈ toks.map (mergeAllTokens src), ∀ a ∈ l, ∀ l' ∈ toks.map (mergeAllTokens src), ∀ b ∈ l', Laminar a b)
+    (hx : extClearB src ops (beforeMods (toks.map (mergeAllTokens src)) unspecific ambiguous) = true) :
+    (mergedExtract src (toks.map (mergeAllTokens src)) unspecific ambiguous ops calendar).Pairwise Disjoint :=
+  mergedExtract_disjoint_of_laminar src _ unspecific ambiguous ops calendar hl
+    (by
+      intro l hl' a ha
+      obtain ⟨ts, hts, rfl⟩ := List.mem_map.1 hl'
+      exact mergeAllTokens_len_pos src ts (hne ts hts) a ha)
+    ((extClearB_iff src ops _).mp hx)
+
+/-- C12 with BOTH hypotheses in the decidable form the unit correspondence evaluates on every recorded call of the real
+`BaseMergedExtractor.extract` (`mg.ext` answers `…|chainNoCrossing|disjoint|extClear`; `spancorr` counts the two bits as
+`mext.ChainNoCrossing` / `mext.ExtClear` and reports a call where both are 1 and the real output overlaps): nothing is
+assumed that the run does not check. -/
+theorem mergedExtract_disjoint_monitored (src : Str) (inputs : List (List ER)) (unspecific ambiguous : ER → Bool)
+    (ops : Nat → List ModOp) (calendar : ER → Bool) (hc : decide (ChainNoCrossing [] inputs) = true)
+    (hx : extClearB src ops (beforeMods inputs unspecific ambiguous) = true) :
+    (mergedExtract src inputs unspecific ambiguous ops calendar).Pairwise Disjoint :=
+  mergedExtract_disjoint src inputs unspecific ambiguous ops calendar (of_decide_eq_true hc)
+    ((extClearB_iff src ops _).mp hx)
+
+/-- `ExtClear` is a real condition: two entities one character apart, the left one extended by two characters. -/
+theorem extClear_violation_witness :
+    let inputs : List (List ER) := [[⟨0, 4, [], 0⟩, ⟨5, 3, [], 1⟩]]
+    let ops : Nat → List ModOp := fun t => if t = 0 then [ModOp.ext 2] else []
+    decide (ChainNoCrossing [] inputs) = true ∧
+    extClearB (List.replicate 10 97) ops (beforeMods inputs (fun _ => false) (fun _ => false)) = false ∧
+    ¬ (mergedExtract (List.replicate 10 97) inputs (fun _ => false) (fun _ => false) ops (fun _ => false)).Pairwise Disjoint := by
+  decide
+
 /-- the counter-model inside the pipeline: date period `[0,3]`, duration `[5,9]`, then a date-time period `[0,6]`. -/
 theorem mergedExtract_crossing_counterexample :
     let inputs : List (List ER) := [[⟨0, 4, [], 0⟩], [⟨5, 5, [], 1⟩], [⟨0, 7, [], 2⟩]]
